@@ -319,6 +319,14 @@ func (w *siteWalker) walk(n *ast.Node, parent *ast.Node, idxInParent int, sameTy
 		if hdr := n.Child(selector.FuncHeader); hdr != nil {
 			if name := hdr.Child(selector.GlobalIdent); name != nil && !isUnnamedIdent(name.Text()) {
 				w.dupEntity("dup:function", n)
+				// ... and the other form of the same function: a definition behind its
+				// declaration, a declaration in front of / behind its definition
+				if n.Type() == ll.FuncDecl {
+					w.sites = append(w.sites, Site{Kind: "dup:function (defined after it was declared)", Off: n.Offset(), End: n.Endoffset(), Text: name.Text(), InsertAt: n.Endoffset(), Insert: "\ndefine void " + name.Text() + "() {\n  ret void\n}\n"})
+				} else {
+					w.sites = append(w.sites, Site{Kind: "dup:function (declared in front of its definition)", Off: n.Offset(), End: n.Endoffset(), Text: name.Text(), InsertAt: n.Offset(), Insert: "declare void " + name.Text() + "()\n"})
+					w.sites = append(w.sites, Site{Kind: "dup:function (declared again behind its definition)", Off: n.Offset(), End: n.Endoffset(), Text: name.Text(), InsertAt: n.Endoffset(), Insert: "\ndeclare void " + name.Text() + "()\n"})
+				}
 			}
 		}
 	case ll.MetadataDef:
@@ -643,6 +651,32 @@ func nearMiss(text, old string, mode int) string {
 				return ""
 			}
 			cand = old[:1] + tails[int(hash64(old)%uint64(len(tails)))]
+		case mode == 14 && (old[0] == '%' || old[0] == '@') && !isUnnamedIdent(old):
+			// the same name under the other sigil: @x where %x was meant (and the
+			// other way round), in a position whose grammar takes either
+			cand = map[byte]string{'%': "@", '@': "%"}[old[0]] + old[1:]
+		case mode == 15 && len(old) >= 4 && old[1] == '"' && old[len(old)-1] == '"':
+			// a quoted name with a raw byte >= 0x80 (Latin-1, not UTF-8): the same
+			// name with another such byte in its place
+			hi := -1
+			for i := 2; i < len(old)-1; i++ {
+				if old[i] >= 0x80 {
+					hi = i
+				}
+			}
+			if hi < 0 {
+				return ""
+			}
+			for _, x := range []byte{1, 2, 4, 8} {
+				c := old[:hi] + string([]byte{old[hi] ^ x}) + old[hi+1:]
+				if !strings.Contains(text, c[1:]) {
+					cand = c
+					break
+				}
+			}
+			if cand == "" {
+				return ""
+			}
 		case mode == 9 && (old[0] == '%' || old[0] == '@' || old[0] == '!'):
 			// 2^63: fits an unsigned but not a signed 64-bit number
 			cand = old[:1] + "9223372036854775808"
@@ -1010,7 +1044,7 @@ func c05Run(sc *C05Scenario) *c05Outcome {
 				// part of the translation order. Drawn from a generator of its own, so
 				// that the map orders of a seed stay what they were.
 				sr := newRNG(derive(sc.Seed, fmt.Sprintf("sched/%d", o)))
-				st := genTape(sr, TapeParams{NSched: 1024, MeanGap: []int{1, 2, 4, 16, 64, 400}[sr.intn(6)], EdgePct: 30, EarlyPct: 30})
+				st := genTape(sr, TapeParams{NSched: 1024, MeanGap: []int{1, 2, 4, 16, 64, 400, 3000}[sr.intn(7)], EdgePct: 30, EarlyPct: 30})
 				tape.Gaps, tape.Picks, tape.Edges, tape.RMWs, tape.Procs = st.Gaps, st.Picks, st.Edges, st.RMWs, st.Procs
 			}
 		}
@@ -1156,7 +1190,7 @@ func c05Search() {
 				sum.Skipped["sites not sampled in the quick tier"]++
 				continue
 			}
-			for variant := 0; variant < 16; variant++ {
+			for variant := 0; variant < 18; variant++ {
 				cross, numeric := variant == 1, variant == 2
 				near := 0
 				if variant >= 3 {
@@ -1198,7 +1232,7 @@ func c05Search() {
 					sum.Counters["faulted inputs redirected to a one-character near miss of the original name"]++
 				}
 				if near >= 6 {
-					sum.Counters["faulted inputs redirected to "+map[int]string{6: "the NAME -0", 7: "the empty quoted name", 8: "a number beyond 64 bits", 9: "the number 2^63", 10: "a quoted all-digit name with a leading zero", 11: "the quoted name for a number / the number for a quoted all-digit name", 12: "the tail of another existing name behind a separator", 13: "a block name that, put behind its function's name, spells a block of another function"}[near]]++
+					sum.Counters["faulted inputs redirected to "+map[int]string{6: "the NAME -0", 7: "the empty quoted name", 8: "a number beyond 64 bits", 9: "the number 2^63", 10: "a quoted all-digit name with a leading zero", 11: "the quoted name for a number / the number for a quoted all-digit name", 12: "the tail of another existing name behind a separator", 14: "the same name under the other sigil (@x for %x, %x for @x)", 15: "a quoted name with one raw non-UTF-8 byte replaced by another", 13: "a block name that, put behind its function's name, spells a block of another function"}[near]]++
 				}
 				sum.Counters["fault kind "+siteClass(s.Kind)]++
 				sum.Counters["map-range visits in non-canonical order"] += o.nonIdentity
